@@ -179,10 +179,17 @@ class Stack(Factory, Container):
             self.nanflow.zero(),
         )
 
+    def _sameThresholds(self, other):
+        """Equal thresholds, with the NaN thresholds of ``Stack.build`` equal to each other (and to nothing else)."""
+        mine, theirs = self.thresholds, other.thresholds
+        return len(mine) == len(theirs) and all(
+            x == y or (math.isnan(x) and math.isnan(y)) for x, y in zip(mine, theirs)
+        )
+
     @inheritdoc(Container)
     def __add__(self, other):
         if isinstance(other, Stack):
-            if self.thresholds != other.thresholds:
+            if not self._sameThresholds(other):
                 raise ContainerException("cannot add Stack because cut thresholds differ")
 
             out = Stack(
@@ -199,7 +206,7 @@ class Stack(Factory, Container):
     @inheritdoc(Container)
     def __iadd__(self, other):
         if isinstance(other, Stack):
-            if self.thresholds != other.thresholds:
+            if not self._sameThresholds(other):
                 raise ContainerException("cannot add Stack because cut thresholds differ")
             self.entries += other.entries
             for (k1, v1), (k2, v2) in zip(self.bins, other.bins):
